@@ -534,7 +534,14 @@ impl Runner {
             (Some(q), 2) => Some(q.saturating_sub(1)),
             (Some(q), 3) => Some(q.saturating_add(1)),
             (Some(q), 4) => Some(q / 2),
-            (Some(q), 5) => Some(q.saturating_mul(2)),
+            (Some(q), 5) => {
+                if self.rng.chance(50, 100) {
+                    Some(q.saturating_mul(2))
+                } else {
+                    // exactly what some account already holds of some asset
+                    self.observed_quantity().or(Some(q))
+                }
+            }
             (_, 6) => Some(0),
             (None, _) => Some(self.rng.range128(0, input)),
             _ => None,
@@ -600,7 +607,13 @@ impl Runner {
             // (re-)register a denom's decimals
             1 => {
                 let d = self.rng.pick(&self.sim.model.denoms.clone()).clone();
-                let dec = self.rng.range(0, 18) as u8;
+                let dec = match self.rng.weighted(&[84, 10, 6]) {
+                    0 => self.rng.range(0, 18) as u8,
+                    // re-registration with the value it already has
+                    1 => self.sim.model.natives.get(&d).copied().unwrap_or(6),
+                    // nothing stops the owner from registering more than 18 decimals
+                    _ => *self.rng.pick(&[19u8, 24, 38, 77, 255]),
+                };
                 let mut pre = vec![];
                 if self.bal(&crate::ledger::native_key(&d), &self.sim.model.factory.clone()) == 0 {
                     pre.push((
